@@ -378,5 +378,19 @@ def handleProg : Handler := fun input impl =>
       | _ => .malformed "C04B impl"
   | _ => .malformed "C04B input"
 
-def handlers : List (String × Handler) := [("C04B.prog", handleProg)]
+/-- `comments_count = true`: request `(program)`, implementation `(got expected)` — the `empty_if` / `empty_loop` diagnostics of
+a template (message @ line) and what the documentation prescribes for it: a block that holds exclusively comments is not empty,
+a block that holds nothing is (harness-side expectation per template) -/
+def handleComments : Handler := fun input impl =>
+  match input, impl with
+  | .list [prog], .list [.list got, .list want] =>
+    let g := got.filterMap Sexp.asString?
+    let w := want.filterMap Sexp.asString?
+    { agree := true,
+      spec := if g == w then none
+        else some s!"[C04] empty_if / empty_loop with comments_count = true: reported {g}, the documented condition (a block holding only comments is not empty; a block holding nothing is) gives {w} for <LF>{prog.asString?.getD ""}",
+      tags := ["comments-count"] ++ (if w.isEmpty then ["cc-silent"] else ["cc-reports"]) }
+  | _, _ => .malformed "comments"
+
+def handlers : List (String × Handler) := [("C04B.prog", handleProg), ("C04.comments", handleComments)]
 end Driver.C04B
